@@ -222,6 +222,15 @@ where
         ensure!(d.maximum_error() == s.maximum_error(), "C11.fi.maximum_error", "{ctx} {when}: maximum_error {} -> {}", s.maximum_error(), d.maximum_error());
         ensure!(d.num_active_items() == s.num_active_items() && d.is_empty() == s.is_empty(), "C11.fi.active_items", "{ctx} {when}: active items {} -> {}", s.num_active_items(), d.num_active_items());
         ensure!(d.lg_max_map_size() == s.lg_max_map_size() && d.maximum_map_capacity() == s.maximum_map_capacity(), "C11.fi.config", "{ctx} {when}: configuration changed");
+        ensure!(
+            d.lg_cur_map_size() == s.lg_cur_map_size() && d.current_map_capacity() == s.current_map_capacity(),
+            "C11.fi.current_map",
+            "{ctx} {when}: current map size lg {} (capacity {}) -> lg {} (capacity {})",
+            s.lg_cur_map_size(),
+            s.current_map_capacity(),
+            d.lg_cur_map_size(),
+            d.current_map_capacity()
+        );
         for id in 0..domain {
             let it = conv(id);
             ensure!(
@@ -247,6 +256,7 @@ where
     let again = fspec::decode(&d.serialize(), strings);
     let first = fspec::decode(&bytes, strings);
     if let (Ok(a), Ok(b)) = (first, again) {
+        ensure!((a.lg_max, a.lg_cur) == (b.lg_max, b.lg_cur), "C11.fi.reserialize", "{ctx}: re-serialized image has lgMax / lgCur ({}, {}), first image ({}, {})", b.lg_max, b.lg_cur, a.lg_max, a.lg_cur);
         let key = |im: &fspec::FiImage| -> (bool, u64, u64, BTreeSet<(String, u64)>) {
             let items: BTreeSet<(String, u64)> = match &im.items {
                 fspec::Items::Longs(v) => v.iter().zip(&im.counts).map(|(k, c)| (k.to_string(), *c)).collect(),
